@@ -40,7 +40,7 @@ var properties = []Property{
 	P("C02", "ASN.1 tag/shape comparison of the marshalled struct types with RFC 5280, constant evaluation, SSA value-identity and guard analysis",
 		"the shape (field order, universal types, tags, EXPLICIT/OPTIONAL/DEFAULT) of the certificate types handed to encoding/asn1; the serial bound (<= 2^159) and version constant; that both signature AlgorithmIdentifiers get one Parameters value that is NULL exactly for RSA; UTC conversion of the validity; the SubjectPublicKeyInfo identifiers.",
 		"DER minimality of lengths/integers/times (encoding/asn1 is trusted for the shape it is given), the 'independent parser reads the same fields' clause, byte-exact round trips, the UTCTime/GeneralizedTime choice.",
-		"ASN1-CERT", "TAB-SERIAL", "SIGALG-PARAMS", "PROV-VALIDITY", "TAB-ALGOID", "TAB-SIGALG", "TBS-WRITERS", "DER-RAW"),
+		"ASN1-CERT", "TAB-SERIAL", "SIGALG-PARAMS", "PROV-VALIDITY", "TAB-ALGOID", "TAB-SIGALG", "TBS-WRITERS", "DER-RAW", "LINT-REUSE"),
 	P("C03", "caller-memory purity analysis over SSA with module callees followed, access-path provenance, table and schema comparison",
 		"that validating against a profile cannot change the subject (no write to caller memory on any path); that subject, serial and unique ids reach the certificate from the like-named configuration and YAML fields without cross-wiring, the configured serial only when non-zero; the attribute short-name table; schema/struct agreement.",
 		"the string type chosen per value, comma/escape parsing for all subject strings, the reversal inside the subject parser, the bytes of the encoded DN.",
@@ -48,7 +48,7 @@ var properties = []Property{
 	P("C04", "constant/layout evaluation, regexp-syntax analysis of the duration pattern, SSA wiring, guard extraction, error-drop analysis",
 		"the date layout constant and location reaching time.ParseInLocation; which capture group feeds which AddDate argument of the single calendar addition; the default lifetime; the from-absent default; From/Until passed in order and converted to UTC; the exact guard under which a profile's validity is inherited; that no parse error of a duration count is dropped; the year range guard.",
 		"calendar arithmetic itself, time-zone behaviour, the UTCTime/GeneralizedTime choice (library).",
-		"TAB-DATE", "PROV-VALIDITY", "MERGE-COPY", "ERR-DROP", "YEAR-RANGE", "SCHEMA-TAGS", "VALIDITY-PATHS", "HASH-KILL"),
+		"TAB-DATE", "PROV-VALIDITY", "MERGE-COPY", "ERR-DROP", "YEAR-RANGE", "SCHEMA-TAGS", "VALIDITY-PATHS", "HASH-KILL", "LINT-NARROW"),
 	P("C05", "constant/table evaluation over AST+types and SSA decision chains, compared with RFC reference tables; guard analysis of key sources",
 		"all 14 key-algorithm names and 8 signature-algorithm names of the schema followed through the program's finite tables (name -> constant -> key kind -> RSA bit size / library curve constructor -> named-curve OID and its inverse; name -> constant -> hash constructor, hash id, OID, key kind, inner = outer OID), the SubjectPublicKeyInfo/PKCS#8 identifiers, the documented defaults, and that the generated key (for the configured algorithm) is the key whose bits go into the SubjectPublicKeyInfo.",
 		"that the library curve constructors implement those curves; that key generation succeeds; anything at run time.",
@@ -60,15 +60,15 @@ var properties = []Property{
 	P("C07", "table evaluation against RFC 5280/6960, ASN.1 shape comparison, wiring table over access-path provenance, dependence, range-check and aliasing lints",
 		"every key-usage bit, extended-key-usage OID, general-name tag, qualifier id, access-method OID and extension OID against the RFCs; the shapes of the marshalled extension structs; that every YAML content field reaches the like-meaning certificate-side field; that key identifiers hash the right bits; that the keyUsage bit length depends on the flags; that parsed IP octets are range-checked; that buffers and slices handed on are not overwritten.",
 		"byte-exact encodings ('an independent decoder reads back'). Known finding D10: pathLen 0 cannot be expressed by the encoder.",
-		"TAB-KU", "TAB-EKU", "TAB-GN", "TAB-QUAL", "TAB-EXTOID", "ASN1-EXT", "PROV-CONTENT", "PROV-KEYID", "LIVE-DEP", "LINT-NARROW", "LINT-REUSE", "LINT-STALE", "ENC-LOOP", "ENC-GATE"),
+		"TAB-KU", "TAB-EKU", "TAB-GN", "TAB-QUAL", "TAB-EXTOID", "ASN1-EXT", "PROV-CONTENT", "PROV-KEYID", "LIVE-DEP", "LINT-NARROW", "LINT-REUSE", "LINT-STALE", "ENC-LOOP", "ENC-GATE", "PROV-ISSUER"),
 	P("C08", "purity analysis, error-propagation chains over the module call graph, field-by-field provenance of the merged value",
 		"four clauses: per profile entry, what Merge emits and records is what the documented table says on every path of one round (MERGE-PATHS); merging does not write to the profile or configuration it was given; the merged value is a whole copy in which only Validity (under the exact inheritance guard) and Extensions (a fresh list) differ; a content-less extension that remains makes generation fail (the override-needed builder always errs, every Builder/Compile error is returned up to the CLI, every Builder hands the handler's result back).",
 		"the merge over lists longer than the unrolling (MERGE-PATHS walks every path through one round of each loop with the inner loops unrolled twice and compares it with the documented decision table; it recognises index lists kept as slices searched by a loop, slices.Contains or a helper, maps and boolean slices - another bookkeeping is reported as undecided).",
-		"PURE", "STATELESS", "ERR-CHAIN-EXT", "MERGE-COPY", "MERGE-PATHS"),
+		"PURE", "STATELESS", "ERR-CHAIN-EXT", "MERGE-COPY", "MERGE-PATHS", "LINT-REUSE"),
 	P("C09", "field liveness with branch-condition use, purity analysis, call-graph effect closure, error chain to the exit status",
 		"that the optional flag is consulted as a branch condition of the subject validator; that validation does not modify the subject; that a failed validation is an error of planning which the CLI turns into a non-zero exit before generation, and that planning and opening cannot write.",
 		"that the validator implements the subsequence rule for all profile x subject pairs: VALIDATE-DP checks that the table recurrence has the documented form, which is a shape rule about today's algorithm, not a proof about all inputs.",
-		"LIVE-FIELD", "PURE", "STATELESS", "ABORT-BEFORE-WRITE", "VALIDATE-DP", "PLAN-CLASSIFY"),
+		"LIVE-FIELD", "PURE", "STATELESS", "ABORT-BEFORE-WRITE", "VALIDATE-DP", "PLAN-CLASSIFY", "TAB-RDN"),
 	P("C10", "call-graph effect analysis (who may write which file), CFG edge classification of the consent gate, guard DNF of the decision table, provenance of metadata",
 		"who may write which file (only the PEM export under <config path>.pem and PutConfig for unknown aliases; nothing deletes); that generation is reached only without overwrites or after the answer y; necessary conditions of the no-op clause: hash line writer/reader agreement, deterministic hash that forgets alias/profile/run-relative dates, metadata rebuilt from the right files, decision table (a certificate+request entity is not 'missing'), no mutation of the stored configuration while building.",
 		"that two consecutive runs leave every byte identical (run-time behaviour: mtimes, random serials are not regenerated only if nothing is planned).",
@@ -76,7 +76,7 @@ var properties = []Property{
 	P("C11", "guard DNF extraction with truth-table comparison against the frozen decision table, provenance of propagation keys, flag table evaluation",
 		"that each of the six regeneration reasons returns true under exactly its table condition with metadata/artifacts fetched for the right aliases, and every other exit returns false; that a planned entity's alias is recorded before its change is appended and looked up by the subject's Issuer; that the work list visits issuers before subjects; the CLI flag/bit/default table; where the timestamps and stored hash come from.",
 		"the 'if and only if' over the product space as executed (time comparisons, map contents at run time).",
-		"GUARD-UPDATE", "PROV-PLAN", "PLAN-PATHS", "TAB-CLI", "PROV-META", "ORDER", "PLAN-CLASSIFY", "STATELESS"),
+		"GUARD-UPDATE", "PROV-PLAN", "PLAN-PATHS", "TAB-CLI", "PROV-META", "ORDER", "PLAN-CLASSIFY", "STATELESS", "TOLERANT"),
 	P("C13", "kill-set and guard DNF analysis of the hashing method, type-level JSON visibility and distinguishability, determinism closure, purity",
 		"which fields the hash forgets and under which flags (Alias, Profile always; From/Until only when run-relative and not explicit); that the hashed bytes are json.Marshal of that copy with no re-encoding; that every field reachable from the hashed value is visible to encoding/json; that the hash reads no clock/randomness/map order; that the merged configuration is what is hashed; that the changed-rule compares with the stored hash; that no two extension kinds can marshal alike (known finding D15 lists the 21 pairs that can).",
 		"collision freeness; that each single-field edit changes the JSON (only that each field is visible and survives the blanking on every path of the validity parser).",
@@ -84,19 +84,19 @@ var properties = []Property{
 	P("C14", "guard analysis of the three key sources, access-path provenance through regeneration and export, tolerance of decode errors",
 		"that regeneration passes the entity's own stored key and request; a key is generated only when both are absent, a stored key is reused as is, the request's public key is used only without a key; the returned artifact carries that key and the incoming request; export writes each part iff present; a PEM with trailing garbage keeps its decoded parts.",
 		"that the re-serialised key is the same key (C17), anything across several runs.",
-		"PROV-KEY", "TOLERANT", "PROV-META"),
+		"PROV-KEY", "TOLERANT", "PROV-META", "FILLBYTES"),
 	P("C15", "error-propagation chain from os.WriteFile to the process exit status, tolerance of decode errors",
 		"one clause: a write error is returned through every function up to the CLI and ends the process with a non-zero status; plus the recovery preconditions: an undecodable PEM does not abort the import and decoded parts are kept; the artifact's modification time is read from the file that was written; missing parts and a newer issuer artifact trigger regeneration under the default flags.",
 		"crash points, torn writes and recovery across runs (run-time histories).",
-		"ERR-CHAIN-WRITE", "TOLERANT", "GUARD-UPDATE", "PROV-META"),
+		"ERR-CHAIN-WRITE", "TOLERANT", "GUARD-UPDATE", "PROV-META", "LINT-IDXNEG"),
 	P("C16", "table evaluation, ASN.1 shape comparison, coverage of partial marshalling ranges, wiring table, reuse lint",
 		"the general-name kinds of authority names, the tags and string kinds of NamingAuthority / Admissions / ProfessionInfo against Common PKI, that the hand-written marshal methods cover every field once in order, the explicit [0] wrapper, that every YAML admission field reaches its structure field from the right list element, and that slices handed on are not reused.",
 		"the assembled TLV bytes.",
-		"TAB-GN", "ASN1-ADM", "PARTIAL-COVER", "PROV-CONTENT", "TAB-EXTOID", "LINT-REUSE", "LINT-STALE", "ENC-LOOP", "ENC-GATE"),
+		"TAB-GN", "ASN1-ADM", "PARTIAL-COVER", "PROV-CONTENT", "TAB-EXTOID", "LINT-REUSE", "LINT-STALE", "ENC-LOOP", "ENC-GATE", "LINT-NARROW"),
 	P("C17", "table bijection, ASN.1 shape comparison, structural check of scalar width and range test, writer/reader table agreement",
 		"that curve OIDs and their inverse agree for all ten curves; the PKCS#8 and ECPrivateKey shapes and version constants; fixed-width scalar (FillBytes into (N.BitLen()+7)/8 bytes) and the reader rejecting exactly k >= N; the algorithm identifiers of writer and reader; that every PEM type written is read.",
 		"equality of keys after a round trip, interoperability with other implementations.",
-		"TAB-CURVEOID", "ASN1-PKCS8", "FILLBYTES", "TAB-PEMTYPE", "TAB-ALGOID", "GUARD-PEMREST", "LINT-TYPEDNIL", "EFFECT-WRITE"),
+		"TAB-CURVEOID", "ASN1-PKCS8", "FILLBYTES", "TAB-PEMTYPE", "TAB-ALGOID", "GUARD-PEMREST", "LINT-TYPEDNIL", "EFFECT-WRITE", "PROV-META"),
 	P("C18", "dominance of the consistency check, call-graph effect closure, error-propagation chain through the directory walk, structural alias derivation, suffix table",
 		"that Open succeeds only behind the consistency check (visited == NumEntities over roots and subscribers) and cannot write; that a duplicate alias is an error returned through the walk and Open to the CLI (non-zero exit before planning); the default alias derivation; the suffix table on the lower-cased name; that a file that does not parse is skipped; who may write files.",
 		"correctness of the reachability count for all issuer graphs.",
@@ -104,11 +104,11 @@ var properties = []Property{
 	P("C19", "access-path provenance from YAML key to certificate field, dominance (before/after signing), error-drop analysis",
 		"that each of the six manipulation keys reaches exactly its own field (OIDs through the OID parser, byte values through the raw reader with BitLength 8*len); TBS manipulations are stored before signing under their != nil guards, outer ones into the signed certificate after the signing call; a preset inner algorithm is kept; nothing is stored into the TBS after it was marshalled; a parse error of a manipulation is reported; merging keeps the manipulations.",
 		"that all other fields equal those of the unmanipulated run.",
-		"PROV-MANIP", "PROV-SIGN", "MERGE-COPY", "ERR-DROP", "SCHEMA-TAGS", "LIVE-FIELD", "TBS-WRITERS"),
+		"PROV-MANIP", "PROV-SIGN", "MERGE-COPY", "ERR-DROP", "SCHEMA-TAGS", "LIVE-FIELD", "TBS-WRITERS", "PROV-ISSUER"),
 	P("C20", "call-graph reachability of explicit panics with per-site discharge rules, bug-pattern lints with fixture controls, error-drop analysis",
 		"that every explicit panic reachable from the entry points is discharged by a checked invariant (constant in-range arguments, algorithm table rows, configurator result types, OID validation at parse time, year range); that six bug patterns are absent (relative index misuse, unchecked Index result, nil part dereference, single-result type assertion, unchecked narrowing, use after close); that no error is dropped; that schema enum values without a case reach an error.",
 		"panics inside libraries, arbitrary index/nil safety (no abstract interpreter for integers/slices is available): this is pattern checking, not a proof of panic freedom.",
-		"PANIC-INV", "OID-VALID", "YEAR-RANGE", "LINT-RELIDX", "LINT-IDXNEG", "LINT-NILPART", "LINT-TYPEASSERT", "LINT-NARROW", "LINT-READ", "LINT-USEAFTERCLOSE", "ERR-DROP", "SCHEMA-ENUM", "LINT-TYPEDNIL"),
+		"PANIC-INV", "OID-VALID", "YEAR-RANGE", "LINT-RELIDX", "LINT-IDXNEG", "LINT-NILPART", "LINT-TYPEASSERT", "LINT-NARROW", "LINT-READ", "LINT-USEAFTERCLOSE", "ERR-DROP", "SCHEMA-ENUM", "LINT-TYPEDNIL", "LINT-NILRESULT"),
 }
 
 var notApplicable = map[string]string{
